@@ -342,8 +342,11 @@ def gen(tier, rng):
                     continue
                 kind = NPKINDS[(j + k) % len(NPKINDS)] if (j + k) % 3 == 0 and backend != 'cbin' else 'py'
                 its.append([it, sels[(j + k) % len(sels)], kind])
-            yield dict(p=PID, backend=backend, parts=[n], nch=nch, dtype=dtype, sr=[10., 100.][k % 2],
-                       cd=[1., .2][k % 2], items=its, npy_order=['C', 'F'][(k // 3) % 2])
+            c = dict(p=PID, backend=backend, parts=[n], nch=nch, dtype=dtype, sr=[10., 100.][k % 2],
+                     cd=[1., .2][k % 2], items=its, npy_order='C')
+            yield c
+            if backend == 'npy' and nch >= 2:
+                yield dict(c, npy_order='F')
     # random larger layouts
     for _ in range(120 if q else 2500):
         nparts = rng.randrange(1, 7)
